@@ -112,6 +112,19 @@ def mk_field(api, shape, attrs, order, *, pre=False, cpu=1, neg=False, ncpu=0, m
 # generators (TLC)
 # --------------------------------------------------------------------------
 
+def retry_killed(f, tries=3):
+    """Re-run f when TLC was killed from outside (exit 137/143: another job on a shared machine
+    cleaning up java processes); any other failure propagates."""
+    for k in range(tries):
+        try:
+            return f()
+        except core.Infra as e:
+            if k == tries - 1 or not re.search(r"exited (137|143|130)\b", str(e)):
+                raise
+            core.log("[retry] %s" % str(e).splitlines()[0])
+            time.sleep(2)
+
+
 def dedupe(values, key):
     seen, out = set(), []
     for v in values:
@@ -127,7 +140,7 @@ def dedupe(values, key):
 def run_generators(ctx, notes):
     tier, seed = ctx.tier, ctx.seed
     quick = tier == "quick"
-    nsim = 150 if quick else 4000
+    nsim = 300 if quick else 8000
     jobs = {
         "scan": lambda: core.run_tlc(ctx.scratch("gen-scan"), "ParScan",
                                      "ParScanQuick.cfg" if quick else "ParScanFixed.cfg",
@@ -140,7 +153,7 @@ def run_generators(ctx, notes):
         "fieldpinned": lambda: core.run_tlc(ctx.scratch("gen-fieldpinned"), "ParField", "ParFieldPinned.cfg", timeout=300),
     }
     with ThreadPoolExecutor(max_workers=min(len(jobs), max(2, core.NCPU // 2))) as ex:
-        futs = {k: ex.submit(f) for k, f in jobs.items()}
+        futs = {k: ex.submit(retry_killed, f) for k, f in jobs.items()}
         res = {k: f.result() for k, f in futs.items()}
     # design-level results on the models themselves
     for k in ("scan", "field"):
@@ -194,20 +207,31 @@ def build_cases(ctx, scheds, sims, orders):
     for j, s in enumerate(sims):
         cases.append(mk_scan(VARIANTS[(j + seed) % len(VARIANTS)], s["n"], s["w"], sched=s["sched"], salt=j, tag="sim"))
     # (3) seeded gated runs with random priorities (no model hint)
-    for j in range(40 if quick else 500):
+    for j in range(60 if quick else 1000):
         n = rnd.choice([0, 1, 2, 3, 5, 8, 13, 21, 34, 55, rnd.randint(0, 60)])
         w = rnd.choice([1, 2, 3, 4, 7, 16, 17, 33, rnd.randint(1, 64)])
         c = mk_scan(VARIANTS[(j + seed) % len(VARIANTS)], n, w, salt=rnd.randint(0, 99), tag="gated-random")
         c["prio"] = rnd.sample(range(n), n)
         cases.append(c)
     # (4) free-running perturbed runs at sizes the gate would make slow; default pool entry points
-    for j in range(120 if quick else 1500):
+    for j in range(200 if quick else 3000):
         n = rnd.choice([0, 1, 2, 7, 16, 31, 64, 100, rnd.randint(0, 300), rnd.randint(100, 300 if quick else 400)])
         w = rnd.choice([1, 2, 3, 5, 8, 16, 17, 40, rnd.randint(1, 64), n + 1])
         defpool = j % 6 == 5
         c = mk_scan(VARIANTS[(j + seed) % len(VARIANTS)], n, w, gated=False, salt=rnd.randint(0, 99),
                     seed=rnd.randint(1, 1 << 30), defpool=defpool, procs=rnd.choice([0, 0, 1, 2, 4]), tag="free")
         cases.append(c)
+    # (5) systematic sweep: every n <= 40, w <= 17 (quick: one entry point per pair, rotating; thorough: all nine)
+    for n in range(0, 41):
+        for w in range(1, 18):
+            for vi, variant in enumerate(VARIANTS):
+                if quick and (n * 17 + w + seed) % len(VARIANTS) != vi:
+                    continue
+                gated = (n + w + vi) % 2 == 0
+                c = mk_scan(variant, n, w, gated=gated, salt=n + w + vi, seed=1 + n * 31 + w, tag="sweep")
+                if gated:
+                    c["prio"] = rnd.sample(range(n), n)
+                cases.append(c)
     # the degenerate mesh: a line strip without indices (PrimitiveCount() is -1)
     for w in (1, 2, 3, 5):
         c = mk_scan("Prim:line strip", 0, w, salt=0, tag="empty-strip")
@@ -216,7 +240,7 @@ def build_cases(ctx, scheds, sims, orders):
         c = dict(c, gated=False, seed=w)
         cases.append(c)
 
-    # (5) field accumulation: every job order of the small model on real multi-block canvases
+    # (6) field accumulation: every job order of the small model on real multi-block canvases
     axes = [(2, 1, 1), (1, 2, 1), (1, 1, 2)]
     fcases = []
     for j, o in enumerate(orders):
@@ -240,7 +264,7 @@ def build_cases(ctx, scheds, sims, orders):
                 fcases.append(mk_field(api, shape, attrs, order, ncpu=ncpu, neg=(r % 2 == 1), gated=(r % 3 != 2),
                                        tag="seeded-order"))
     # marching comparisons (expensive: a block costs ~0.4 s per sequential march)
-    mplan = [((1, 1, 1), [1], 0, 1, False, (0,)), ((2, 1, 1), [1], 3, 1, False, (0, -3, 3)),
+    mplan = [((1, 1, 1), [1], 0, 1, False, (0, -20)), ((2, 1, 1), [1], 3, 1, False, (0, -3, 3)),
              ((1, 2, 1), [1], 0, 2, True, (0,)), ((1, 1, 2), [1, 21], 2, 1, False, (0,))]
     if not quick:
         mplan += [((2, 2, 1), [1], 0, 1, False, (0, 3)), ((2, 2, 2), [1], 5, 1, True, (0,)),
@@ -248,10 +272,10 @@ def build_cases(ctx, scheds, sims, orders):
                   ((1, 2, 2), [1], 2, 4, True, (0, 3))]
     for j, (shape, attrs, ncpu, cpu, neg, cuts2) in enumerate(mplan):
         nj = shape[0] * shape[1] * shape[2] * len(attrs)
-        for r in range(1 if quick else 2):
+        for r in range(1 if quick else 3):
             order = rnd.sample(range(1, nj + 1), nj)
             c = mk_field("AddFieldParallel" if (j + r) % 3 else "AddFieldParallel2", shape, attrs, order, ncpu=ncpu,
-                         cpu=cpu, neg=neg, march=True, cuts2=cuts2, mattrs=attrs[:1] if quick else attrs,
+                         cpu=cpu, neg=neg, march=True, cuts2=cuts2, mattrs=attrs[:1],
                          reps=(0, 2) if quick else (0, 1, 3), pre=(j % 2 == 1), tag="march")
             fcases.append(c)
     cases += fcases
@@ -452,8 +476,9 @@ def execute(ctx, vh, vhr, cases, rcases, notes):
 
 def judge(ctx, name, trace):
     """Validate trace lines with TLC; returns findings [(pred, case dict, line dict, race line or None)]."""
-    results = core.validate_sharded(ctx, name, "TracePar", "TracePar.cfg", trace,
-                                    is_boundary=lambda ln: ln.startswith('{"k":"case"'), timeout=3000)
+    results = retry_killed(lambda: core.validate_sharded(
+        ctx, name, "TracePar", "TracePar.cfg", trace,
+        is_boundary=lambda ln: ln.startswith('{"k":"case"'), timeout=3000))
     findings = []
     for sh, r in results:
         for v in r.values:
@@ -469,8 +494,15 @@ def judge(ctx, name, trace):
     return findings
 
 
+def entry_point(c, ln):
+    """the parallel entry point a rejected line is about"""
+    if ln.get("k") == "march" and ln.get("what") == "marchpar":
+        return "MarchOnAttributeParallel"
+    return api_name(c)
+
+
 def signature(pred, c, ln):
-    sig = "%s/%s" % (pred, api_name(c))
+    sig = "%s/%s" % (pred, entry_point(c, ln))
     if c["kind"] == "scan" and c["variant"] == "Prim":
         sig += "/" + c["topo"].replace(" ", "-")
     if pred == "C10.RaceFree":
@@ -484,7 +516,7 @@ def describe(pred, c, ln):
             pred, "gated" if c["gated"] else "free", api_name(c), c["n"], c["w"],
             (", topology " + c["topo"]) if c["topo"] else "", c.get("tag"), json.dumps(ln)[:300])
     return "%s rejected %s on a canvas with %s blocks, attributes %s, %s workers (%s case); line %s" % (
-        pred, c["api"], "x".join(map(str, c.get("shape", []))), c["fields"][-1]["attrs"], c.get("ncpu") or "all",
+        pred, entry_point(c, ln), "x".join(map(str, c.get("shape", []))), c["fields"][-1]["attrs"], c.get("ncpu") or "all",
         c.get("tag"), json.dumps(ln)[:300])
 
 
@@ -607,7 +639,7 @@ def selftest(ctx, trace, findings):
     d = ctx.scratch("selftest")
     with open(os.path.join(d, "trace.ndjson"), "w") as f:
         f.write("".join(lines))
-    r = core.run_tlc(d, "TracePar", "TracePar.cfg", timeout=600, heap="3g")
+    r = retry_killed(lambda: core.run_tlc(d, "TracePar", "TracePar.cfg", timeout=600, heap="3g"))
     ctx.add_tlc(r)
     if r.postcondition_failed or r.distinct != len(lines) + 1:
         raise core.Infra("self-test trace not fully consumed")
@@ -655,11 +687,22 @@ def stats(ctx, cases, rcases, trace, notes):
     })
     kinds = {}
     tri = 0
+    cur, vis, gen, exact_ = None, [], 0, 0
     for ln in trace:
         k = ln[6:ln.index('"', 6)]
         kinds[k] = kinds.get(k, 0) + 1
         if k == "march" and '"tris":[[' in ln:
             tri += 1
+        # how faithfully the controller imposed the generated interleavings (a measurement, not a verdict)
+        if k == "case":
+            cur, vis = json.loads(ln)["c"], []
+        elif k == "visit":
+            vis.append(json.loads(ln)["i"])
+        elif k == "done" and cur.get("tag") in ("bfs", "sim") and cur.get("n", 0) > 1:
+            gen += 1
+            exact_ += vis == cur["prio"]
+    notes["model_schedules_executed"] = gen
+    notes["model_schedules_imposed_exactly"] = exact_
     notes["trace_lines_by_kind"] = kinds
     notes["march_comparisons_with_triangles"] = tri
 
@@ -691,12 +734,14 @@ def run_family(ctx):
                           if (c["kind"] == "scan" and c["n"] >= 2 and c["w"] >= 2) or
                           (c["kind"] == "field" and c["shape"] != [1, 1, 1])})
     ctx.rule = ("scan cases: every interleaving of the ParScan model (n<=%d, w<=%d), sampled interleavings up to n=40,w=17, "
-                "seeded priorities and free-running perturbed runs up to n=400,w=64, over 9 entry points; field cases: every "
+                "a sweep over all n<=40, w<=17, seeded priorities and free-running perturbed runs up to n=400,w=64, over 9 entry points; field cases: every "
                 "job order of the ParField model plus seeded orders on canvases of 1-9 blocks with 2..16 workers (CPU "
                 "affinity), AddFieldParallel and AddFieldParallel2, March vs MarchParallel; a case is distinct by (entry "
                 "point, n, w, schedule) / (entry point, block shape, workers, order); non-trivial: n>=2 and w>=2, or more "
                 "than one block" % ((6, 4) if ctx.tier == "quick" else (8, 5)))
-    for c in cases[:1] + [c for c in cases if c["kind"] == "field"][:1]:
+    for c in ([c for c in cases if c["kind"] == "scan" and c["n"] >= 5 and c["w"] >= 3][:2] +
+              [c for c in cases if c["kind"] == "field" and c["shape"] != [1, 1, 1]][:1] +
+              [c for c in cases if c["kind"] == "field" and c["march"]][1:2]):
         ctx.sample({k: c[k] for k in c if k not in ("in", "idx", "hint")})
     ctx.assumptions += [
         "the harness callbacks block every invocation; the controller releases one at a time after the goroutines are "
